@@ -188,10 +188,13 @@ def shrink(case):
 
 
 MANIFEST = {
-    "text": "Theorems (Props/C03.v): Match equals the six-way documented conjunction and PreMatch is a necessary condition, for every regex "
-            "oracle whose derived static prefix is sound; the per-aggregator cache is transparent over all histories of lookups and expiry "
-            "sweeps; destination selection, aggregate routing and aggregation consumption depend on the metric name only and aggregation "
-            "consumption equals the complete filter. Tie: matcher.New/Match/PreMatch/regexToPrefix against the model and against the conjunction "
-            "evaluated with Go's regexp; the four call sites on real tables.",
-    "note": "Partial in one respect: soundness of regexToPrefix for *all* regexes is a hypothesis of the main theorem (validated differentially on generated shapes and a corpus), not a theorem. Trusted: Coq kernel+VM, Go regexp as oracle.",
+    "text": "Theorems (Props/C03.v): Match equals the six-way documented conjunction and PreMatch is a necessary condition; the static prefix is "
+            "proved sound: every string an anchored regex matches (backtracking engine) starts with the prefix read off its syntax tree "
+            "(induction over the tree), and the prefix regexToPrefix scans from the text is sound whenever it is an initial part of that "
+            "(prefix_ok, a boolean evaluated for every generated regex on every run), which leaves the main theorem without hypothesis; the "
+            "per-aggregator cache is transparent over all histories of lookups and expiry sweeps; destination selection, aggregate routing and "
+            "aggregation consumption depend on the metric name only. Tie: matcher.New/Match/PreMatch/regexToPrefix against the model and against "
+            "the conjunction evaluated with Go's regexp; the four call sites on real tables.",
+    "note": "The engine (Lib/Regex.v) stands for Go's regexp on the generated syntax subset and is cross-checked against it on every (pattern, name) pair; "
+            "regexes outside that subset are covered by the differential run only. Trusted: Coq kernel+VM, Go regexp as oracle.",
 }
